@@ -2147,3 +2147,51 @@ Proof.
 Qed.
 Lemma done_run_log : glog done_run = [(0, (0, 0, 1), 42); (1, (0, 0, 1), 42); (2, (0, 0, 1), 42); (3, (0, 0, 1), 42)].
 Proof. vm_compute. reflexivity. Qed.
+
+(* ---- finding F10: with channel switches totality FAILS (the out-of-order handler answers across channels) ------------ *)
+Definition byz3 (l : Z) : bool := l =? 3.
+Definition hon3 : list Z := [0; 1; 2].
+(* the faulty P3 behaving like an honest sender of slot (id, 3, s) with value v, everything handed over among P0..P2 *)
+Definition bcast3 (id s v : Z) : list event :=
+  map (fun p => ERecv p 3 (Msg id 3 s 1 v)) hon3 ++
+  flat_map (fun p => map (fun l => ERecv p l (Msg id 3 s 2 (Hodd v))) hon3) hon3 ++
+  flat_map (fun p => map (fun l => ERecv p l (Msg id 3 s 3 (Hodd v))) hon3) hon3.
+Definition cross_events : list event :=
+  [ESetID 0 7 true; ESetID 1 8 true; ESetID 2 8 true] ++          (* P0 on channel 7, P1 and P2 on channel 8 *)
+  bcast3 8 1 50 ++                                                 (* slot (8,3,1): deliver_s[3] = 2 at P1, P2 *)
+  [ERecv 1 3 (Msg 7 3 1 1 51); ERecv 2 3 (Msg 7 3 1 1 51)] ++      (* payload of (7,3,1) to P1, P2 only: no quorum ever *)
+  flat_map (fun p => map (fun l => ERecv p l (Msg 7 3 1 2 (Hodd 51))) [1; 2]) hon3 ++
+  bcast3 7 2 52 ++                                                 (* slot (7,3,2) properly: P0 buffers it and asks for slot 1 *)
+  [EIdle 0; ERecv 1 0 (Msg 7 3 1 6 6); ERecv 2 0 (Msg 7 3 1 6 6);  (* P1, P2 answer although they sit on channel 8 *)
+   ERecv 0 1 (Msg 7 3 1 7 51); ERecv 0 2 (Msg 7 3 1 7 51); ERecv 0 3 (Msg 7 3 1 7 51); EIdle 0;   (* P0 delivers slots 1, 2 *)
+   EUnsetID 1 true; ESetID 1 7 true; EUnsetID 2 true; ESetID 2 7 true; EIdle 1; EIdle 2].         (* P1, P2 come to channel 7 *)
+Notation cross_run := (grun 4 1 0 Hodd (fun _ _ => false) byz3 cross_events).
+
+Definition ho_check_hon (n : Z) (byz : Z -> bool) (g : gst) : bool :=
+  forallb (fun e : Z * Z * msg => match e with (l, q, m) =>
+             if honest n byz q && (1 <=? m_act m) && (m_act m <=? 5) then filt (gp g q) (kind_of (m_act m)) l (mtag m) else true end) (gsent g).
+Lemma ho_check_hon_sound : forall n byz g, ho_check_hon n byz g = true -> handed_over n byz g.
+Proof.
+  intros n byz g C l q m I Hq R. unfold ho_check_hon in C. rewrite forallb_forall in C. specialize (C _ I). cbn in C.
+  rewrite Hq in C. cbn in C. destruct ((1 <=? m_act m) && (m_act m <=? 5)) eqn:X; auto.
+  apply andb_false_iff in X. destruct X as [X|X]; b2p; lia.
+Qed.
+
+Lemma cross_run_log : glog cross_run = [(1, (8, 3, 1), 50); (2, (8, 3, 1), 50); (0, (7, 3, 1), 51); (0, (7, 3, 2), 52)].
+Proof. vm_compute. reflexivity. Qed.
+
+(* one faulty party out of four, every protocol message between honest parties handed over, deliver buffers drained, all honest
+   parties on the FIFO channel 7: P0 has delivered slot (7,3,1), P1 never will *)
+Theorem totality_with_switches_refuted : ~ delivery_at_quiescence_statement 4 1 0 Hodd (fun _ _ => false) byz3.
+Proof.
+  intros S. specialize (S cross_events 7).
+  assert (HO : handed_over 4 byz3 cross_run) by (apply ho_check_hon_sound; vm_compute; reflexivity).
+  assert (BD : buffers_drained 4 byz3 cross_run) by (apply bd_check_sound; vm_compute; reflexivity).
+  assert (CH : forall q, honest 4 byz3 q = true -> cur (gp cross_run q) = 7 /\ fifo (gp cross_run q) = true).
+  { intros q Hq. unfold honest, is_party, byz3 in Hq. b2p.
+    assert (Q3 : q = 0 \/ q = 1 \/ q = 2) by lia. destruct Q3 as [E | [E | E]]; rewrite E; vm_compute; auto. }
+  destruct (S HO BD CH) as [_ T].
+  assert (I0 : In (0, (7, 3, 1), 51) (glog cross_run)) by (rewrite cross_run_log; cbn; auto).
+  destruct (T 0 3 1 51 I0 1 eq_refl) as (v' & I1). rewrite cross_run_log in I1. cbn in I1.
+  repeat (destruct I1 as [I1|I1]; [discriminate I1|]). exact I1.
+Qed.
